@@ -186,4 +186,645 @@ theorem lex_ok (p : Bytes) : LexOK (lex p) := by
             · simp [LexOK]; omega
   · simp [LexOK]
 
+/-! ### invariants of the ranges `parseRange` returns -/
+
+/-- a range lies inside the file -/
+def Inside (size : Int) (r : HRange) : Prop := 0 ≤ r.start ∧ 0 ≤ r.length ∧ r.start + r.length ≤ size
+
+theorem loopWL_cons (p : Bytes) (ps : List Bytes) : loopWL (p :: ps) =
+    match wlOf (lex p) with
+    | .skip => loopWL ps
+    | .bad => none
+    | .rng r => (loopWL ps).map (r :: ·) := by
+  rw [loopWL, pieceWL_eq]; cases wlOf (lex p) <;> rfl
+
+theorem loopL_cons (size : Int) (p : Bytes) (ps : List Bytes) : loopL size (p :: ps) =
+    match lOf size (lex p) with
+    | .skip => loopL size ps
+    | .bad => none
+    | .noOverlap => (loopL size ps).map fun x => (x.1, true)
+    | .rng r => (loopL size ps).map fun x => (r :: x.1, x.2) := by
+  rw [loopL, pieceL_eq]; cases lOf size (lex p) <;> rfl
+
+theorem lOf_inside {size : Int} (hs : 0 ≤ size) {l : Lex} (hl : LexOK l) {r : HRange}
+    (h : lOf size l = .rng r) : Inside size r := by
+  cases l <;> simp only [lOf, LexOK] at h hl
+  all_goals try (simp at h; done)
+  all_goals (repeat' split at h) <;> simp at h <;> subst h <;> simp [Inside] <;> omega
+
+theorem loopL_inside {size : Int} (hs : 0 ≤ size) : ∀ (ps : List Bytes) (rs : List HRange) (no : Bool),
+    loopL size ps = some (rs, no) → ∀ r ∈ rs, Inside size r
+  | [], rs, no, h => by simp [loopL] at h; intro r hr; simp_all
+  | p :: ps, rs, no, h => by
+    rw [loopL_cons] at h
+    cases hr : loopL size ps with
+    | none => cases hl : lOf size (lex p) <;> simp [hl, hr] at h
+    | some x =>
+      obtain ⟨a, b⟩ := x
+      have ih := loopL_inside hs ps a b hr
+      cases hl : lOf size (lex p) with
+      | skip => simp [hl, hr] at h; obtain ⟨rfl, _⟩ := h; exact ih
+      | bad => simp [hl] at h
+      | noOverlap => simp [hl, hr] at h; obtain ⟨rfl, _⟩ := h; exact ih
+      | rng q =>
+        simp [hl, hr] at h
+        obtain ⟨rfl, _⟩ := h
+        intro r hr'
+        simp at hr'
+        rcases hr' with rfl | hr'
+        · exact lOf_inside hs (lex_ok p) hl
+        · exact ih r hr'
+theorem parseRange_inside {s : Bytes} {size : Int} (hs : 0 ≤ size) {rs : List HRange}
+    (h : parseRange s size = .ok rs) : ∀ r ∈ rs, Inside size r := by
+  unfold parseRange at h
+  split at h
+  · simp at h; intro r hr; simp_all
+  · split at h
+    · simp at h
+    · split at h
+      · simp at h
+      · rename_i ranges no hl
+        split at h
+        · simp at h
+        · simp at h; subst h
+          exact loopL_inside hs _ _ _ hl
+
+theorem wlOf_closed {i j : Int} (hi : 0 ≤ i) :
+    wlOf (.closed i j) = if i > j then .bad else .rng { «from» := i, to := some j } := by
+  simp only [wlOf]
+  by_cases h : i > j
+  · have : j < 0 ∨ i > j := Or.inr h
+    simp [h]
+  · simp [h]; omega
+
+/-- `From < 0` only comes with `To = nil` (so seekToRangeStart's first error is unreachable) -/
+theorem loopWL_to_none : ∀ (ps : List Bytes) (ws : List ByteRange), loopWL ps = some ws →
+    ∀ w ∈ ws, w.from < 0 → w.to = none
+  | [], ws, h => by simp [loopWL] at h; intro w hw; simp_all
+  | p :: ps, ws, h => by
+    rw [loopWL_cons] at h
+    have ok := lex_ok p
+    cases hr : loopWL ps with
+    | none => cases hl : wlOf (lex p) <;> simp [hl, hr] at h
+    | some a =>
+      have ih := loopWL_to_none ps a hr
+      cases hl : lex p with
+      | skip => simp [hl, hr, wlOf] at h; subst h; exact ih
+      | bad => simp [hl, wlOf] at h
+      | badEnd i => simp [hl, wlOf] at h
+      | suffix n =>
+        simp [hl, hr, wlOf] at h; subst h
+        intro w hw; simp at hw
+        rcases hw with rfl | hw
+        · simp
+        · exact ih w hw
+      | «open» i =>
+        simp [hl, hr, wlOf] at h; subst h
+        intro w hw; simp at hw
+        rcases hw with rfl | hw
+        · simp
+        · exact ih w hw
+      | closed i j =>
+        simp only [hl, LexOK] at ok
+        rw [hl, wlOf_closed ok] at h
+        by_cases hij : i > j
+        · simp [hij] at h
+        · simp [hij, hr] at h; subst h
+          intro w hw; simp at hw
+          rcases hw with rfl | hw
+          · simp; omega
+          · exact ih w hw
+theorem lOf_open {size i : Int} (hi : 0 ≤ i) :
+    lOf size (.open i) = if i ≥ size then .noOverlap else .rng { start := i, length := size - i } := by
+  simp only [lOf]
+  have : ¬ i < 0 := by omega
+  simp [this]
+
+theorem lOf_closed {size i : Int} (j : Int) (hi : 0 ≤ i) :
+    lOf size (.closed i j) = if i ≥ size then .noOverlap else if i > j then .bad
+      else .rng { start := i, length := (if j ≥ size then size - 1 else j) - i + 1 } := by
+  simp only [lOf]
+  have : ¬ i < 0 := by omega
+  simp [this]
+
+theorem lOf_badEnd {size i : Int} (hi : 0 ≤ i) :
+    lOf size (.badEnd i) = if i ≥ size then .noOverlap else .bad := by
+  simp only [lOf]
+  have : ¬ i < 0 := by omega
+  simp [this]
+
+/-- If the first range read without the length starts at 0 (or there is none), then the first range
+`parseRange` keeps starts at 0 or is empty.  This is what makes the non-seekable (sniffing) path safe. -/
+theorem loops_agree_at_zero {size : Int} (hs : 0 ≤ size) : ∀ (ps : List Bytes) (ws : List ByteRange)
+    (rs : List HRange) (no : Bool), loopWL ps = some ws → loopL size ps = some (rs, no) →
+    (∀ w, ws.head? = some w → w.from = 0) → ∀ r, rs.head? = some r → r.start = 0 ∨ r.length = 0
+  | [], ws, rs, no, h1, h2, _ => by simp [loopL] at h2; intro r hr; simp_all
+  | p :: ps, ws, rs, no, h1, h2, hz => by
+    have hin := loopL_inside hs (p :: ps) rs no h2
+    rw [loopWL_cons] at h1
+    rw [loopL_cons] at h2
+    have ok := lex_ok p
+    cases hw : loopWL ps with
+    | none => cases hl : wlOf (lex p) <;> simp [hl, hw] at h1
+    | some a =>
+    cases hr : loopL size ps with
+    | none => cases hl : lOf size (lex p) <;> simp [hl, hr] at h2
+    | some x =>
+      obtain ⟨b, c⟩ := x
+      -- when the file is empty every kept range is empty
+      have hempty : size = 0 → ∀ r, rs.head? = some r → r.start = 0 ∨ r.length = 0 := by
+        intro h0 r hr'
+        have hi := hin r (List.mem_of_mem_head? hr')
+        unfold Inside at hi
+        omega
+      cases hl : lex p with
+      | skip =>
+        simp [hl, hw, hr, wlOf, lOf] at h1 h2
+        obtain ⟨rfl, rfl⟩ := h2
+        subst h1
+        exact loops_agree_at_zero hs ps a b c hw hr hz
+      | bad => simp [hl, wlOf] at h1
+      | badEnd i => simp [hl, wlOf] at h1
+      | suffix n =>
+        simp [hl, hw, hr, wlOf, lOf] at h1 h2
+        subst h1
+        have hn := hz _ rfl
+        simp at hn
+        subst hn
+        obtain ⟨rfl, _⟩ := h2
+        intro r hr'
+        simp at hr'
+        subst hr'
+        right
+        simp
+        split <;> omega
+      | «open» i =>
+        simp only [hl, LexOK] at ok
+        rw [hl, lOf_open ok] at h2
+        simp [hl, hw, wlOf] at h1
+        subst h1
+        have hn := hz _ rfl
+        simp at hn
+        subst hn
+        by_cases h0 : (0:Int) ≥ size
+        · exact hempty (by omega)
+        · simp [h0, hr] at h2
+          obtain ⟨rfl, _⟩ := h2
+          intro r hr'
+          simp at hr'
+          subst hr'
+          simp
+      | closed i j =>
+        simp only [hl, LexOK] at ok
+        rw [hl, lOf_closed j ok] at h2
+        rw [hl, wlOf_closed ok] at h1
+        by_cases hij : i > j
+        · simp [hij] at h1
+        · simp [hij, hw] at h1
+          subst h1
+          have hn := hz _ rfl
+          simp at hn
+          subst hn
+          by_cases h0 : (0:Int) ≥ size
+          · exact hempty (by omega)
+          · simp [h0, hij, hr] at h2
+            obtain ⟨rfl, _⟩ := h2
+            intro r hr'
+            simp at hr'
+            subst hr'
+            simp
+
+/-- a header the length-less parser accepts is never "invalid" for `parseRange` -/
+theorem loopL_of_loopWL (size : Int) : ∀ (ps : List Bytes) (ws : List ByteRange), loopWL ps = some ws →
+    loopL size ps ≠ none
+  | [], _, _ => by simp [loopL]
+  | p :: ps, ws, h => by
+    rw [loopWL_cons] at h
+    rw [loopL_cons]
+    have ok := lex_ok p
+    cases hw : loopWL ps with
+    | none => cases hl : wlOf (lex p) <;> simp [hl, hw] at h
+    | some a =>
+      have ih := loopL_of_loopWL size ps a hw
+      cases hr : loopL size ps with
+      | none => exact absurd hr ih
+      | some x =>
+        cases hl : lex p with
+        | skip => simp [lOf]
+        | bad => simp [hl, wlOf] at h
+        | badEnd i => simp [hl, wlOf] at h
+        | suffix n => simp [lOf]
+        | «open» i =>
+          simp only [hl, LexOK] at ok
+          rw [lOf_open ok]
+          by_cases h0 : i ≥ size <;> simp [h0]
+        | closed i j =>
+          simp only [hl, LexOK] at ok
+          rw [lOf_closed j ok]
+          rw [hl, wlOf_closed ok] at h
+          by_cases hij : i > j
+          · simp [hij] at h
+          · by_cases h0 : i ≥ size <;> simp [h0, hij]
+/-! ### errNoOverlap characterised -/
+
+/-- first-byte-pos of a byte-range-spec, when it has one (suffix specs have none) -/
+def firstPos : Lex → Option Int
+  | .open i => some i
+  | .closed i _ => some i
+  | .badEnd i => some i
+  | _ => none
+
+/-- the piece names no byte of a file of `size` bytes: its first-byte-pos is at or beyond the end -/
+def Beyond (size : Int) (l : Lex) : Prop := ∃ i, firstPos l = some i ∧ size ≤ i
+
+theorem lOf_noOverlap_iff {size : Int} {l : Lex} (ok : LexOK l) : lOf size l = .noOverlap ↔ Beyond size l := by
+  cases l with
+  | skip => simp [lOf, Beyond, firstPos]
+  | bad => simp [lOf, Beyond, firstPos]
+  | suffix n => simp [lOf, Beyond, firstPos]
+  | «open» i =>
+    simp only [LexOK] at ok
+    rw [lOf_open ok]
+    by_cases h : i ≥ size <;> simp [h, Beyond, firstPos] <;> omega
+  | closed i j =>
+    simp only [LexOK] at ok
+    rw [lOf_closed j ok]
+    by_cases h : i ≥ size
+    · simp [h, Beyond, firstPos]
+    · by_cases h2 : i > j <;> simp [h, h2, Beyond, firstPos] <;> omega
+  | badEnd i =>
+    simp only [LexOK] at ok
+    rw [lOf_badEnd ok]
+    by_cases h : i ≥ size <;> simp [h, Beyond, firstPos] <;> omega
+
+theorem lOf_skip_iff {size : Int} {l : Lex} : lOf size l = .skip ↔ l = .skip := by
+  cases l <;> simp [lOf]
+  all_goals (repeat' split) <;> simp
+
+theorem loopL_nil_of {size : Int} : ∀ (ps : List Bytes), (∀ p ∈ ps, lex p = .skip ∨ Beyond size (lex p)) →
+    ∃ no, loopL size ps = some ([], no) ∧ (no = true ↔ ∃ p ∈ ps, Beyond size (lex p))
+  | [], _ => ⟨false, by simp [loopL]⟩
+  | p :: ps, h => by
+    obtain ⟨no, h1, h2⟩ := loopL_nil_of ps (fun q hq => h q (List.mem_cons_of_mem _ hq))
+    rw [loopL_cons]
+    rcases h p (by simp) with hp | hp
+    · refine ⟨no, ?_, ?_⟩
+      · simp [hp, lOf, h1]
+      · simp [hp, h2, Beyond, firstPos]
+    · refine ⟨true, ?_, ?_⟩
+      · rw [(lOf_noOverlap_iff (lex_ok p)).mpr hp]; simp [h1]
+      · simp; exact Or.inl hp
+
+theorem loopL_nil_only {size : Int} : ∀ (ps : List Bytes) (no : Bool), loopL size ps = some ([], no) →
+    ∀ p ∈ ps, lex p = .skip ∨ Beyond size (lex p)
+  | [], _, _ => by simp
+  | p :: ps, no, h => by
+    rw [loopL_cons] at h
+    cases hr : loopL size ps with
+    | none => cases hl : lOf size (lex p) <;> simp [hl, hr] at h
+    | some x =>
+      obtain ⟨a, b⟩ := x
+      cases hl : lOf size (lex p) with
+      | skip =>
+        simp [hl, hr] at h
+        obtain ⟨rfl, _⟩ := h
+        intro q hq; simp at hq
+        rcases hq with rfl | hq
+        · exact Or.inl (lOf_skip_iff.mp hl)
+        · exact loopL_nil_only ps b hr q hq
+      | bad => simp [hl] at h
+      | noOverlap =>
+        simp [hl, hr] at h
+        obtain ⟨rfl, _⟩ := h
+        intro q hq; simp at hq
+        rcases hq with rfl | hq
+        · exact Or.inr ((lOf_noOverlap_iff (lex_ok _)).mp hl)
+        · exact loopL_nil_only ps b hr q hq
+      | rng r => simp [hl, hr] at h
+
+/-- the comma-separated pieces of a Range header value -/
+def pieces (hdr : Bytes) : List Bytes := splitOn 44 (hdr.drop 6)
+
+/-- errNoOverlap, characterised: every non-empty piece is a range-spec whose first-byte-pos is at or
+beyond the end of the file, and there is at least one -/
+theorem parseRange_noOverlap_iff {s : Bytes} {size : Int} : parseRange s size = .noOverlap ↔
+    s ≠ [] ∧ hasPrefix s bytesPrefix = true ∧ (∀ p ∈ pieces s, lex p = .skip ∨ Beyond size (lex p)) ∧
+      ∃ p ∈ pieces s, Beyond size (lex p) := by
+  unfold parseRange pieces
+  cases hs : s.isEmpty
+  · have hne : s ≠ [] := by intro h; simp [h] at hs
+    cases hp : hasPrefix s bytesPrefix
+    · simp [hne]
+    · simp only [hne, Bool.false_eq_true, ↓reduceIte, Bool.not_true, ne_eq, not_false_eq_true, true_and]
+      constructor
+      · intro h
+        cases hl : loopL size (splitOn 44 (List.drop 6 s)) with
+        | none => simp [hl] at h
+        | some x =>
+          obtain ⟨rs, no⟩ := x
+          simp only [hl] at h
+          split at h
+          · rename_i hc
+            simp at hc
+            obtain ⟨rfl, rfl⟩ := hc
+            have h1 := loopL_nil_only _ _ hl
+            obtain ⟨no', h2, h3⟩ := loopL_nil_of (size := size) _ h1
+            rw [hl] at h2
+            simp at h2
+            exact ⟨h1, h3.mp h2⟩
+          · simp at h
+      · rintro ⟨h1, h2⟩
+        obtain ⟨no, h3, h4⟩ := loopL_nil_of (size := size) _ h1
+        rw [h3]
+        simp [h4.mpr h2]
+  · simp at hs; simp [hs]
+/-! ### reading from the file -/
+
+theorem readAt_whole (c : Bytes) : readAt c 0 (c.length : Int) = c := by
+  simp [readAt]
+
+theorem readAt_length {c : Bytes} {a n : Int} (ha : 0 ≤ a) (hn : 0 ≤ n) (h : a + n ≤ c.length) :
+    ((readAt c a n).length : Int) = n := by
+  simp [readAt]
+  omega
+
+theorem readAt_zero_len (c : Bytes) (a b : Int) : readAt c a 0 = readAt c b 0 := by
+  simp [readAt]
+
+/-- the first kept range comes from the first piece that is neither empty nor beyond the end -/
+theorem loopL_head {size : Int} : ∀ (ps : List Bytes) (rs : List HRange) (no : Bool) (ra : HRange),
+    loopL size ps = some (rs, no) → rs.head? = some ra →
+    ∃ pre p post, ps = pre ++ p :: post ∧ (∀ q ∈ pre, lex q = .skip ∨ Beyond size (lex q)) ∧
+      lOf size (lex p) = .rng ra
+  | [], rs, no, ra, h, hh => by simp [loopL] at h; simp_all
+  | p :: ps, rs, no, ra, h, hh => by
+    rw [loopL_cons] at h
+    cases hr : loopL size ps with
+    | none => cases hl : lOf size (lex p) <;> simp [hl, hr] at h
+    | some x =>
+      obtain ⟨a, b⟩ := x
+      cases hl : lOf size (lex p) with
+      | skip =>
+        simp [hl, hr] at h
+        obtain ⟨rfl, _⟩ := h
+        obtain ⟨pre, q, post, e, h1, h2⟩ := loopL_head ps a b ra hr hh
+        refine ⟨p :: pre, q, post, by simp [e], ?_, h2⟩
+        intro z hz; simp at hz
+        rcases hz with rfl | hz
+        · exact Or.inl (lOf_skip_iff.mp hl)
+        · exact h1 z hz
+      | bad => simp [hl] at h
+      | noOverlap =>
+        simp [hl, hr] at h
+        obtain ⟨rfl, _⟩ := h
+        obtain ⟨pre, q, post, e, h1, h2⟩ := loopL_head ps a b ra hr hh
+        refine ⟨p :: pre, q, post, by simp [e], ?_, h2⟩
+        intro z hz; simp at hz
+        rcases hz with rfl | hz
+        · exact Or.inr ((lOf_noOverlap_iff (lex_ok _)).mp hl)
+        · exact h1 z hz
+      | rng q =>
+        simp [hl, hr] at h
+        obtain ⟨rfl, _⟩ := h
+        simp at hh
+        subst hh
+        exact ⟨[], p, ps, by simp, by simp, hl⟩
+
+/-! ### httpServeContent's plan -/
+
+theorem parseRange_nil (size : Int) : parseRange [] size = .ok [] := by simp [parseRange]
+
+/-- the three shapes of a plan -/
+theorem plan_cases (f : File) (r : Req) :
+    (∃ resp, planContent f r = .final resp ∧ resp.body = [] ∧
+        (resp.status = 304 ∨ resp.status = 412 ∨ resp.status = 416)) ∨
+    planContent f r = .send 200 .none 0 (f.content.length : Int) ∨
+    ∃ ra hdr rs, planContent f r =
+        .send 206 (.range ra.start (ra.start + ra.length - 1) (f.content.length : Int)) ra.start ra.length ∧
+      checkPreconditions f r = .go hdr ∧ parseRange hdr (f.content.length : Int) = .ok rs ∧
+      rs.head? = some ra := by
+  unfold planContent
+  cases hp : checkPreconditions f r with
+  | failed => left; exact ⟨_, rfl, rfl, by simp⟩
+  | notModified => left; exact ⟨_, rfl, rfl, by simp⟩
+  | go hdr =>
+    simp only []
+    cases hr : parseRange hdr (f.content.length : Int) with
+    | invalid => left; exact ⟨_, rfl, rfl, by simp⟩
+    | noOverlap =>
+      simp only []
+      split
+      · right; left; simp
+      · left; exact ⟨_, rfl, rfl, by simp⟩
+    | ok rs =>
+      simp only []
+      split
+      · right; left; rfl
+      · rename_i ra tl hsel
+        right; right
+        refine ⟨ra, hdr, rs, rfl, rfl, hr, ?_⟩
+        split at hsel
+        · simp at hsel
+        · simp [hsel]
+
+/-! ### the two parsers, header level -/
+
+theorem parsers_agree_at_zero {s : Bytes} {size : Int} (hs : 0 ≤ size) {ws : List ByteRange}
+    {rs : List HRange} (h1 : parseRangeWL s = some ws) (h2 : parseRange s size = .ok rs)
+    (hz : ∀ w, ws.head? = some w → w.from = 0) : ∀ ra, rs.head? = some ra → ra.start = 0 ∨ ra.length = 0 := by
+  unfold parseRangeWL at h1
+  unfold parseRange at h2
+  cases he : s.isEmpty
+  · simp only [he, Bool.false_eq_true, ↓reduceIte] at h1 h2
+    cases hp : hasPrefix s bytesPrefix
+    · simp [hp] at h1
+    · simp only [hp, Bool.not_true, Bool.false_eq_true, ↓reduceIte] at h1 h2
+      cases hl : loopL size (splitOn 44 (List.drop 6 s)) with
+      | none => simp [hl] at h2
+      | some x =>
+        obtain ⟨rs', no⟩ := x
+        simp only [hl] at h2
+        split at h2
+        · simp at h2
+        · simp at h2; subst h2
+          exact loops_agree_at_zero hs _ _ _ _ h1 hl hz
+  · simp [he] at h2; subst h2; simp
+
+theorem parseRange_valid_of_WL {s : Bytes} (size : Int) {ws : List ByteRange}
+    (h1 : parseRangeWL s = some ws) : parseRange s size ≠ .invalid := by
+  unfold parseRangeWL at h1
+  unfold parseRange
+  cases he : s.isEmpty
+  · simp only [he, Bool.false_eq_true, ↓reduceIte] at h1 ⊢
+    cases hp : hasPrefix s bytesPrefix
+    · simp [hp] at h1
+    · simp only [hp, Bool.not_true, Bool.false_eq_true, ↓reduceIte] at h1 ⊢
+      have := loopL_of_loopWL size _ _ h1
+      cases hl : loopL size (splitOn 44 (List.drop 6 s)) with
+      | none => exact absurd hl this
+      | some x => simp only []; split <;> simp
+  · simp
+
+/-- checkPreconditions continues either with the Range header or with none (If-Range failed) -/
+theorem pre_go {f : File} {r : Req} {hdr : Bytes} (h : checkPreconditions f r = .go hdr) :
+    hdr = r.range ∨ (hdr = [] ∧ r.range ≠ [] ∧ checkIfRange f r = .false) := by
+  unfold checkPreconditions at h
+  simp only [] at h
+  repeat' split at h
+  all_goals first | (simp at h; done) | (simp at h; subst h; simp_all)
+
+/-! ### unfolding `serve` -/
+
+/-- the handler-level If-None-Match shortcut (handleIfNoneMatch) fires -/
+def early304 (f : File) (r : Req) : Bool :=
+  !r.ifNoneMatch.isEmpty && etagMatchAny r.ifNoneMatch [f.etag, f.dirEtag, f.dagEtag]
+
+theorem preSeek_fixed_some (size : Int) (ws : List ByteRange)
+    (h : ∀ w ∈ ws, w.from < 0 → w.to = none) : ∃ p, preSeek true size ws.head? = some p ∧
+      ((∀ w, ws.head? = some w → w.from = 0) → p = 0) := by
+  cases ws with
+  | nil => exact ⟨0, rfl, fun _ => rfl⟩
+  | cons w t =>
+    have hw := h w (by simp)
+    by_cases h0 : w.from = 0
+    · exact ⟨0, by simp [preSeek, h0], fun _ => rfl⟩
+    · by_cases h1 : w.from < 0
+      · by_cases h2 : size + w.from < 0
+        · exact ⟨0, by simp [preSeek, h0, h1, h2, hw h1], fun _ => rfl⟩
+        · exact ⟨size + w.from, by simp [preSeek, h0, h1, h2, hw h1], fun hz => absurd (hz w rfl) h0⟩
+      · exact ⟨w.from, by simp [preSeek, h0, h1], fun hz => absurd (hz w rfl) h0⟩
+
+/-- GET, spelled out: what `serve` is once the early exits are excluded.  `seekable = false` is the
+content-type sniffing path, which is only taken when the pre-seek position is 0. -/
+theorem serve_get (f : File) (r : Req) (he : early304 f r = false) (hh : r.head = false)
+    (ws : List ByteRange) (hw : parseRangeWL r.range = some ws) :
+    ∃ (seekable : Bool) (pos0 : Int), (seekable = false → pos0 = 0 ∧ ∀ w, ws.head? = some w → w.from = 0) ∧
+      serve f r = match planContent f r with
+        | .final resp => resp
+        | .send st cr start n =>
+          { status := st, contentRange := cr, contentLength := some n, lastModified := f.modSec != 0,
+            etag := f.etag, body := readAt f.content (if seekable then start else pos0) n } := by
+  have hto : ∀ w ∈ ws, w.from < 0 → w.to = none := by
+    unfold parseRangeWL at hw
+    split at hw
+    · simp at hw; subst hw; simp
+    · split at hw
+      · simp at hw
+      · exact loopWL_to_none _ _ hw
+  obtain ⟨p, hp1, hp2⟩ := preSeek_fixed_some (f.content.length : Int) ws hto
+  refine ⟨!((match ws.head? with | none => true | some ra => ra.from == 0) && !r.ctypeKnown), p, ?_, ?_⟩
+  · intro hns
+    have hz : ∀ w, ws.head? = some w → w.from = 0 := by
+      intro w hw'
+      rw [hw'] at hns
+      simp at hns
+      exact hns.1
+    exact ⟨hp2 hz, hz⟩
+  · unfold early304 at he
+    unfold serve serveWith
+    simp only [he, hh, hw, hp1, Bool.false_eq_true, ↓reduceIte, Bool.true_and]
+    cases planContent f r <;> rfl
+
+theorem parseRange_head {s : Bytes} {size : Int} {rs : List HRange} {ra : HRange}
+    (h : parseRange s size = .ok rs) (hh : rs.head? = some ra) :
+    ∃ pre p post, pieces s = pre ++ p :: post ∧ (∀ q ∈ pre, lex q = .skip ∨ Beyond size (lex q)) ∧
+      lOf size (lex p) = .rng ra := by
+  unfold parseRange at h
+  unfold pieces
+  cases he : s.isEmpty
+  · simp only [he, Bool.false_eq_true, ↓reduceIte] at h
+    cases hp : hasPrefix s bytesPrefix
+    · simp [hp] at h
+    · simp only [hp, Bool.not_true, Bool.false_eq_true, ↓reduceIte] at h
+      cases hl : loopL size (splitOn 44 (List.drop 6 s)) with
+      | none => simp [hl] at h
+      | some x =>
+        obtain ⟨rs', no⟩ := x
+        simp only [hl] at h
+        split at h
+        · simp at h
+        · simp at h; subst h
+          exact loopL_head _ _ _ _ hl hh
+  · simp [he] at h; subst h; simp at hh
+
+theorem serve_cases (f : File) (r : Req) :
+    (early304 f r = true ∧ (serve f r).status = 304) ∨
+    (early304 f r = false ∧ r.head = false ∧ parseRangeWL r.range = none ∧ serve f r = { status := 400 }) ∨
+    (early304 f r = false ∧ (r.head = true ∨ ∃ ws, parseRangeWL r.range = some ws) ∧
+      ((∃ resp, planContent f r = .final resp ∧ serve f r = resp) ∨
+       (∃ st cr start n, planContent f r = .send st cr start n ∧ (serve f r).status = st ∧
+          (serve f r).contentRange = cr ∧ (serve f r).contentLength = some n))) := by
+  cases he : early304 f r
+  · right
+    cases hh : r.head
+    · cases hw : parseRangeWL r.range with
+      | none =>
+        left
+        refine ⟨rfl, rfl, rfl, ?_⟩
+        unfold early304 at he
+        unfold serve serveWith
+        simp only [he, hh, hw, Bool.false_eq_true, ↓reduceIte]
+      | some ws =>
+        right
+        refine ⟨rfl, Or.inr ⟨ws, rfl⟩, ?_⟩
+        obtain ⟨sk, pos0, _, hs⟩ := serve_get f r he hh ws hw
+        cases hp : planContent f r with
+        | final resp => left; rw [hp] at hs; exact ⟨resp, rfl, hs⟩
+        | send st cr start n => right; rw [hp] at hs; exact ⟨st, cr, start, n, rfl, by rw [hs], by rw [hs], by rw [hs]⟩
+    · right
+      refine ⟨rfl, Or.inl rfl, ?_⟩
+      have hs : serve f r = match planContent f r with
+          | .final resp => resp
+          | .send st cr _ n =>
+            { status := st, contentRange := cr, contentLength := some n, lastModified := f.modSec != 0,
+              etag := f.etag } := by
+        unfold early304 at he
+        unfold serve serveWith
+        simp only [he, hh, Bool.false_eq_true, ↓reduceIte]
+        cases planContent f r <;> rfl
+      cases hp : planContent f r with
+      | final resp => left; rw [hp] at hs; exact ⟨resp, rfl, hs⟩
+      | send st cr start n => right; rw [hp] at hs; exact ⟨st, cr, start, n, rfl, by rw [hs], by rw [hs], by rw [hs]⟩
+  · left
+    refine ⟨rfl, ?_⟩
+    unfold early304 at he
+    unfold serve serveWith
+    simp only [he, ↓reduceIte]
+
+/-- a final plan with status 416 -/
+theorem plan_416 {f : File} {r : Req} {resp : Resp} (h : planContent f r = .final resp)
+    (hs : resp.status = 416) : ∃ hdr, checkPreconditions f r = .go hdr ∧
+      ((parseRange hdr (f.content.length : Int) = .noOverlap ∧ (f.content.length : Int) ≠ 0 ∧
+          resp.contentRange = .unsat (f.content.length : Int)) ∨
+       (parseRange hdr (f.content.length : Int) = .invalid ∧ resp.contentRange = .none)) := by
+  unfold planContent at h
+  cases hp : checkPreconditions f r with
+  | failed => simp [hp] at h; subst h; simp at hs
+  | notModified => simp [hp] at h; subst h; simp at hs
+  | go hdr =>
+    refine ⟨hdr, rfl, ?_⟩
+    simp only [hp] at h
+    cases hr : parseRange hdr (f.content.length : Int) with
+    | invalid => simp only [hr] at h; simp at h; subst h; right; exact ⟨rfl, rfl⟩
+    | noOverlap =>
+      simp only [hr] at h
+      split at h
+      · split at h <;> simp at h
+      · rename_i h0
+        simp at h; subst h
+        left
+        refine ⟨rfl, ?_, rfl⟩
+        simpa using h0
+    | ok rs =>
+      simp only [hr] at h
+      split at h <;> simp at h
+
+/-- without conditional headers the preconditions pass and the Range header is honoured -/
+theorem pre_none {f : File} {r : Req} (h1 : r.ifRange = []) (h2 : r.ifNoneMatch = []) (h3 : r.ifMatch = [])
+    (h4 : r.iusT = none) (h5 : r.imsT = none) : checkPreconditions f r = .go r.range := by
+  unfold checkPreconditions checkIfMatch checkIfUnmodifiedSince checkIfNoneMatch checkIfModifiedSince checkIfRange
+  simp [h1, h2, h3, h4, h5]
+
+theorem planContent_head (f : File) (r : Req) (b : Bool) : planContent f { r with head := b } = planContent f r := rfl
+
 end C30
